@@ -186,3 +186,4 @@ H("C04", "html/tree", "VxH_C04_length", mode="real", reach=["computed"], bounds=
 H("C04", "html/tree", "VxH_C04_defaulting", mode="real", reach=["computed"], bounds="every known property x {undeclared, inherit, initial} on a child of a root with symbolic font-size")
 H("C04", "html/tree", "VxH_C04_root", reach=["computed"], bounds="every known property x {inherit, initial} on the root element")
 H("C04", "html/tree", "VxH_C04_shared_rule", mode="real", reach=["computed"], bounds="two siblings with symbolic font sizes sharing one rule with em lengths (transform: translate, width, margin-left)")
+H("C04", "html/tree", "VxH_C04_relative_on_root", reach=["computed"], bounds="font-weight bolder/lighter and font-size larger/smaller on the root element")
